@@ -216,7 +216,11 @@ def write_evidence(ctx, mod, broken, fresh, seen_known):
         "wall_s": round(time.time() - ctx.t0, 2),
         "violations": len(fresh) + (1 if (broken and not fresh) else 0),
     }
-    common.write_json(os.path.join(VERIF, "evidence", "%s.json" % ctx.pid), ev)
+    # runs against a patched copy of the repository (VERIF_REPO, seeded-defect trials) must not overwrite the
+    # evidence of the real tree
+    evdir = os.environ.get("VERIF_EVIDENCE_DIR") or (os.path.join(VERIF, "evidence") if common.REPO == "/repo"
+                                                      else os.path.join("/tmp", "verif-evidence-scratch"))
+    common.write_json(os.path.join(evdir, "%s.json" % ctx.pid), ev)
 
 
 if __name__ == "__main__":
